@@ -51,8 +51,12 @@ def rule_rewrite_order(ctx: Ctx) -> None:
                  f"unwrap_nodes iterates `{short(l.iter)}` and inserts at `{edge_src}`; to preserve the state it must insert the "
                  f"application sequence returned by unwrap() in order on the wrapper node's in-edge", func="CircuitDAG.unwrap_nodes",
                  construct=f"unwrap_nodes: {short(src if src is not None else l.iter, 50)} / {edge_src}")
-    tail = [norm(s) for s in ast.walk(fn) if isinstance(s, ast.Expr)]
-    if any(t == "self.remove_op(node)" for t in tail):
+    # the wrapper node (the variable of the loop that encloses the insertion loop) is removed after its expansion
+    outer = [o for o in ast.walk(fn) if isinstance(o, ast.For) and o is not l and any(x is l for x in ast.walk(o))]
+    wnode = norm(outer[-1].target) if outer else None
+    removed = any(isinstance(s_, ast.Expr) and isinstance(s_.value, ast.Call) and call_name(s_.value) == "self.remove_op"
+                  and s_.value.args and norm(s_.value.args[0]) == wnode for o in outer for s_ in o.body)
+    if removed:
         ctx.ok("order.wrapper", m, fn, what="wrapper node removed after expansion")
     else:
         ctx.fail("order.wrapper", m, fn, "unwrap_nodes no longer removes the wrapper node after inserting its expansion",
@@ -62,9 +66,13 @@ def rule_rewrite_order(ctx: Ctx) -> None:
     ctx.touch(m, fn)
     backward = any("in_edges(" in norm(n.value) for n in ast.walk(fn) if isinstance(n, ast.Assign))
     sides = []
+    wr = [c for c in calls_in(fn) if call_attr(c) == "OneQubitGateWrapper" and c.args and isinstance(c.args[0], ast.Name)]
+    if not wr:
+        raise AnalysisError("group_one_qubit_gates: OneQubitGateWrapper(<gate list>, ...) construction not found")
+    GL = wr[0].args[0].id
     for st in ast.walk(fn):
         if isinstance(st, ast.stmt):
-            s = order.accumulation_side(st, "gate_list")
+            s = order.accumulation_side(st, GL)
             if s is not None:
                 sides.append((st, s))
     if not sides:
@@ -77,7 +85,7 @@ def rule_rewrite_order(ctx: Ctx) -> None:
                      f"group_one_qubit_gates walks the wire from the output backwards, so the gate visited first acts last and must be the "
                      f"leftmost list element; `{short(st)}` puts later-visited gates on the left", func="CircuitDAG.group_one_qubit_gates")
     ins = [c for c in calls_in(fn) if call_attr(c) == "insert_at"]
-    if ins and "out_edges(" in " ".join(norm(n.value) for n in ast.walk(fn) if isinstance(n, ast.Assign) and norm(n.targets[0]) == "out_edges"):
+    if ins and "out_edges(" in " ".join(norm(n.value) for n in ast.walk(fn) if isinstance(n, ast.Assign)):
         ctx.ok("order.wrapper", m, ins[0], what="grouped wrapper inserted right after the preceding non-one-qubit node")
 
 
